@@ -233,6 +233,11 @@ def corpus_repr(tier, seed):
     A('u32', 'hard2', 'adjacent', n=7)
     A('i8', 'hard2', 'none', n=4)
     A(None, 'hard', 'last', n=4)
+    # variant names that collide under snake_case / case folding (distinct identifiers all the same)
+    p = Program(nm.next('Rp'), [Variant('Http'), Variant('HTTP', disc='10'), Variant('FooBar'), Variant('Foo_Bar', disc='3'), Variant('V1'), Variant('V_1')], derives=['FromRepr'])
+    p.repr = 'u8'
+    p.std_derives = ['Debug', 'PartialEq']
+    out.append(p)
     if tier == 'quick':
         return add_noise(out)
     pats = ['implicit', 'explicit', 'negative', 'expression', 'gapped', 'descending', 'extreme', 'hard', 'hard2']
@@ -285,6 +290,8 @@ def corpus_table(tier, seed):
     A(4, (4,), k0=2)
     A(5, (1, 2), k0=3)
     A(6, (), k0=0)
+    A(1, (0,), k0=5)
+    A(1, (1, 2), k0=6)
     # repr / explicit discriminants on the key enum must not matter
     p = table_program(nm, 4, (1,), k0=4)
     p.repr = 'u8'
@@ -637,7 +644,7 @@ def corpus_is(tier, seed):
 # ---------------------------------------------------------------------------------------
 # C14 EnumMessage / C15 EnumProperty
 
-DOCS = [[], [' doc one'], [''], [' '], ['  two spaces', ' second'], ['\tTabbed line'], ['\u00a0nbsp first', '\tthen tab', ' then space'], ['no leading space', '', ' after an empty line'], [' quote " backslash \\ brace {x}', ' \u00fcnicode', ' third', '    indented']]
+DOCS = [[], [' doc one'], [''], [' '], ['', ' text after an empty first line'], ['', ''], [' ', '', ' x'], ['  two spaces', ' second'], ['\tTabbed line'], ['\u00a0nbsp first', '\tthen tab', ' then space'], ['no leading space', '', ' after an empty line'], [' quote " backslash \\ brace {x}', ' \u00fcnicode', ' third', '    indented']]
 
 def corpus_msg(tier, seed):
     nm = Namer()
@@ -654,8 +661,9 @@ def corpus_msg(tier, seed):
     A([M(V('G', 'tuple', ['T']), 'generic', None, DOCS[1]), M(V('H'))])
     A([M(V('GoneA', disabled=True), 'x'), M(V('GoneB', disabled=True))])
     # detailed_message written before message, attributes split; doc lines starting with a tab / NBSP keep it
-    A([M(V('First'), 'plain', 'detailed', DOCS[5]), M(V('Second', 'tuple', ['u8']), 'only plain', None, DOCS[6]), M(V('Third'), None, 'only detailed')]).attr_layout = 'split_rev'
-    A([M(V('First'), 'plain', 'detailed', DOCS[6]), M(V('Second'), 'p2', 'd2')]).attr_layout = 'split'
+    A([M(V('First'), 'plain', 'detailed', DOCS[8]), M(V('Second', 'tuple', ['u8']), 'only plain', None, DOCS[9]), M(V('Third'), None, 'only detailed')]).attr_layout = 'split_rev'
+    A([M(V('First'), 'plain', 'detailed', DOCS[9]), M(V('Second'), 'p2', 'd2', DOCS[7])]).attr_layout = 'split'
+    A([M(V('LeadEmpty'), None, None, DOCS[4]), M(V('TwoEmpty'), None, None, DOCS[5]), M(V('SpaceEmptyText', 'tuple', ['u8']), 'm', None, DOCS[6]), M(V('Long'), None, None, DOCS[11]), M(V('Mid'), None, None, DOCS[10])])
     A([M(V('EmptyDoc'), None, None, DOCS[2]), M(V('SpaceDoc'), 'm', None, DOCS[3]), M(V('GoneDetailed', disabled=True), None, 'explicit detailed on a disabled variant', DOCS[2])])
     if tier == 'quick':
         return out
